@@ -139,6 +139,9 @@ class FakeSCF:
     def open_link(self):
         self.w.action(self)
 
+    def wait_for_params(self):
+        pass                                   # the parameter download of this stand-in is complete at once
+
     def close_link(self):
         self.w.closes.append(self.inst)
         self.w.closes_when_done.append(self.w.n_done() == len(self.w.members))
@@ -698,6 +701,9 @@ def run_history(case):
         def close_link(self):
             pass
 
+        def wait_for_params(self):
+            pass
+
     class F:
         def __init__(self):
             self.k = 0
@@ -834,6 +840,9 @@ def run_process(case):
             action(self)
 
         def close_link(self):
+            pass
+
+        def wait_for_params(self):
             pass
 
     class F:
@@ -1014,6 +1023,9 @@ def run_lifecycle(case):
                 e = _CloseErr(self.inst)
                 log['close_errs'][id(e)] = (e, self.k)
                 raise e
+
+        def wait_for_params(self):
+            pass
 
     class F:
         def __init__(self):
@@ -1211,6 +1223,9 @@ def run_helpers(case):
             pass
 
         def close_link(self):
+            pass
+
+        def wait_for_params(self):
             pass
 
     class F:
@@ -1442,6 +1457,9 @@ def run_linkstate(case):
         def is_link_open(self):
             return self.link
 
+        def wait_for_params(self):
+            pass
+
     class F:
         def __init__(self):
             self.k = 0
@@ -1568,7 +1586,7 @@ def _corpus_cases():
 
 
 def _gen_cases(ctx, rng):
-    cases = [c for c in _corpus_cases() if c.get('op') not in ('history', 'process', 'lifecycle', 'helpers', 'linkstate') and c.get('kind') != 'hold']
+    cases = [c for c in _corpus_cases() if c.get('op') not in ('history', 'process', 'lifecycle', 'helpers', 'linkstate') and c.get('kind') not in ('hold', 'open_drop')]
     # all failing subsets for small swarms, several schedules each
     for n in range(0, ctx.scale(4, 5)):
         for sub in itertools.chain.from_iterable(itertools.combinations(range(n), r) for r in range(n + 1)):
@@ -1870,6 +1888,8 @@ def run_hold(case, wait=0.15):
     release = threading.Event()
     lock = threading.Lock()
     calls, done = [], set()
+    closes = []
+    drop = set(case.get('drop', []))
 
     class M:
         def __init__(self, uri, inst):
@@ -1878,8 +1898,15 @@ def run_hold(case, wait=0.15):
         def open_link(self):
             action(self)
 
+        def wait_for_params(self):
+            # the link of a member in case['drop'] went down between `connected` and `fully_connected`: the signal
+            # this call waits for never comes (the harness gives up after 5 s)
+            if self.uri in drop:
+                release.wait(5.0)
+
         def close_link(self):
-            pass
+            with lock:
+                closes.append(self.inst)
 
     class F:
         def __init__(self):
@@ -1927,9 +1954,25 @@ def run_hold(case, wait=0.15):
     early = returned.wait(wait)
     release.set()
     t.join(6.0)
-    res = {'returned_while_held': bool(early), 'members': members, 'calls': sorted(calls), 'alive': t.is_alive()}
+    res = {'returned_while_held': bool(early), 'members': members, 'calls': sorted(calls), 'alive': t.is_alive(), 'closes': list(closes)}
     res.update(out)
     return res
+
+
+def check_open_drop(case):
+    """open_links with members whose link dropped before fully_connected: must come back in bounded time; on any
+    member failure every link is closed and the failure raised."""
+    r = run_hold(case, wait=0.6)
+    if not r['returned_while_held']:
+        return {'class': 'open_links_blocked_after_link_drop', 'case': case, 'expected': 'open_links returns or raises',
+                'observed': {k: r.get(k) for k in ('outcome', 'closes', 'alive')},
+                'detail': 'open_links did not come back within 0.6 s although every open_link() had returned or raised'}
+    want = 'Raised' if case['failing'] else 'Returned'
+    if r.get('outcome') != want:
+        return {'class': 'failure_not_raised' if want == 'Raised' else 'raises_without_failure', 'case': case, 'expected': want, 'observed': r}
+    if case['failing'] and sorted(r['closes']) != sorted(r['members']):
+        return {'class': 'open_failure_does_not_close_all', 'case': case, 'expected': sorted(r['members']), 'observed': r['closes']}
+    return None
 
 
 def check_hold(case):
@@ -1958,7 +2001,7 @@ def oracle(ctx, deep=False):
         if f and sum(1 for x in fails if x['class'] == f['class']) < 2:
             fails.append(f)
 
-    cases = [c for c in _corpus_cases() if c.get('op') not in ('history', 'process', 'lifecycle', 'helpers', 'linkstate') and c.get('kind') != 'hold']
+    cases = [c for c in _corpus_cases() if c.get('op') not in ('history', 'process', 'lifecycle', 'helpers', 'linkstate') and c.get('kind') not in ('hold', 'open_drop')]
     for size in range(0, ctx.scale(4, 5)):
         for sub in itertools.chain.from_iterable(itertools.combinations(range(size), r) for r in range(size + 1)):
             for op in ('parallel_safe', 'parallel_safe', 'parallel', 'sequential', 'open_links', 'open_twice', 'par_then_par'):
@@ -1990,6 +2033,15 @@ def oracle(ctx, deep=False):
             [gen_linkstate(rng, n=(i % 4) + 1 if i < 24 else None) for i in range(ctx.scale(250, 3000) * (3 if deep else 1))]:
         n += 1
         add(check_linkstate(c))
+    # open_links while the link of some member dropped between connected and fully_connected
+    for i in range(ctx.scale(6, 40)):
+        size = rng.randrange(2, 5)
+        uris = rng.sample(range(1, 40), size)
+        drop = rng.sample(uris, rng.randrange(1, size))
+        c = {'op': 'open_links', 'uris': uris, 'hold': [], 'kind': 'open_drop', 'drop': drop,
+             'failing': [] if i % 2 else [rng.choice([u for u in uris if u not in drop] or uris)]}
+        n += 1
+        add(check_open_drop(c))
     # legal URI sets whose members share the last path element; the EARLIER of two such members finishes last / raises late
     for uris in COLLIDING_URI_SETS:
         for op in ('parallel_safe', 'parallel', 'open_links'):
@@ -2024,6 +2076,8 @@ def oracle(ctx, deep=False):
 
 def replay(payload, ctx):
     c = payload['case']
+    if c.get('kind') == 'open_drop':
+        return check_open_drop(c)
     if c.get('kind') == 'hold':
         return check_hold(c)
     if c.get('op') == 'history':
